@@ -116,6 +116,13 @@ def c12_oracle(case, obs):
                 got = nonces.get(a["sid"])
                 if got and got[:4] != F.nonce(cid)[:len(got[:4])]:
                     out.append(("connect %d: the stream accepted for it carries another connector's nonce %s" % (cid, got), None))
+    for a in accepts:
+        l = listeners.get((a["host"], a["lid"]))
+        if l and l["kind"] == "loop" and a["peer"][0] != "loop":
+            out.append(("listener %d on host %d is bound to localhost but accepted a connection from %s"
+                        % (a["lid"], a["host"], a["peer"]), None))
+        if a["local"][0] == "unspec":
+            out.append(("accepted stream at step %d has the unspecified address as its local address" % a["step"], None))
     if not small_eph:
         seen = {}
         for a in accepts:
@@ -258,7 +265,10 @@ class Spec(PropSpec):
 
     def oracle(self, case, obs):
         if obs.get("panic"):
-            return []
+            msg = str(obs["panic"])
+            if "server socket buffer full" in msg:
+                return []          # documented: more pending requests than tcp_capacity
+            return [("the implementation panicked during connect/accept/teardown: %s" % msg[:200], None)]
         return c12_oracle(case, obs)
 
     def nontrivial(self, case, obs):
